@@ -495,6 +495,46 @@ def main_c14(tier, seed, pid="C14"):
 
 # ---------------------------------------------------------------------------------------- C16
 
+def rebuilt_final_state(it, cls, Xtr, Ytr, Itr, k, which, **kw):
+    """The final model as the property describes it: a fresh subgraph over the training rows with arcs, densities and
+    clustering for k - built with the library's own steps on a fresh object, nothing left over from a k-search."""
+    from opfython.subgraphs import KNNSubgraph
+    m2, _, _ = make_knn_model(it, cls, **kw)
+    m2.subgraph = KNNSubgraph(Xtr, Ytr, Itr)
+    m2.subgraph.best_k = k
+    a = (m2.distance_fn, m2.pre_computed_distance, m2.pre_distances)
+    m2.subgraph.create_arcs(k, *a)
+    m2.subgraph.calculate_pdf(k, *a)
+    if which == "knn":
+        m2._clustering(force_prototype=True)
+        m2.subgraph.destroy_arcs()
+    else:
+        m2._clustering(k)
+    return final_state(m2.subgraph, which)
+
+
+def final_state(sg, which):
+    st = knn_state(sg)
+    st.pop("order", None)
+    if which == "knn":
+        st.pop("nclusters", None); st.pop("clabel", None)
+    for a_ in ("constant", "min_density", "max_density", "best_k"):
+        st[a_] = float(getattr(sg, a_))
+    return st
+
+
+def compare_final(opf, it, cls, Xtr, Ytr, Itr, which, **kw):
+    k = int(opf.subgraph.best_k)
+    got = final_state(opf.subgraph, which)
+    if any(v != v for v in got["dens"] + got["cost"]):
+        return None
+    want = rebuilt_final_state(it, cls, Xtr, Ytr, Itr, k, which, **kw)
+    for f in want:
+        if repr(want[f]) != repr(got[f]):
+            return "the fitted model is not the model built with best_k=%d: %s is %r, a fresh build with that k gives %r" % (k, f, got[f], want[f])
+    return None
+
+
 def main_c16(tier, seed):
     setup_impl_env()
     import opfython.math.general as g
@@ -558,10 +598,15 @@ def main_c16(tier, seed):
                     rep.violation("KNNSupervisedOPF.fit: " + err, d, key="knn_learn")
                 continue
             want = 1 + max(range(len(accs)), key=lambda i: (accs[i], -i))
+            msg = None
             if int(opf.subgraph.best_k) != want:
+                msg = "best_k = %d, accuracies %r: smallest k with the highest accuracy is %d" % (opf.subgraph.best_k, accs, want)
+            else:
+                msg = compare_final(opf, it, KNNSupervisedOPF, X[tr].copy(), ytr, None if I is None else I[tr], "knn", max_k=max_k)
+            if msg:
                 nviol += 1
                 if nviol <= 3:
-                    rep.violation("best_k = %d, accuracies %r: smallest k with the highest accuracy is %d" % (opf.subgraph.best_k, accs, want), d, key="knn_learn")
+                    rep.violation(msg, d, key="knn_learn")
         else:
             min_k = rng.randint(1, 2)
             max_k = rng.randint(min_k, min(5, n - 1))
@@ -610,6 +655,8 @@ def main_c16(tier, seed):
                 msg = "evaluation stopped early without a zero cut: %r" % cuts
             elif clus_k[-1] != want or len(opf.subgraph.nodes[0].adjacency) < want:
                 msg = "final clustering used k=%r, best_k=%d" % (clus_k[-1], want)
+            else:
+                msg = compare_final(opf, it, UnsupervisedOPF, X[:n].copy(), np.array(it.labels), None if I is None else I[:n], "unsup", min_k=min_k, max_k=max_k)
             if msg:
                 nviol += 1
                 if nviol <= 3:
